@@ -401,6 +401,75 @@ def multipass_expr_cases(run):
             break
 
 
+def recorded_relative_cases(run):
+    """contact-point-relative fits of recorded (noisy) curves, whose contact
+    point need not settle within the four passes: the points flagged in the
+    'fit range' column are the points the reported results come from --
+    chi-square is the sum of the squared residual column over them and
+    xmin / xmax are their extreme abscissae"""
+    import warnings
+    from nanite import IndentationGroup
+    data = common.REPO / "tests" / "data"
+    files = sorted(f for f in data.glob("fmt-jpk-fd_s*.jpk-force"))
+    if run.tier == "quick":
+        files = [f for f in files if "bad" in f.name][:2] + \
+            [f for f in files if "bad" not in f.name][:1]
+    ranges = [(-3e-7, 1e-6), (-2e-6, 1e-6)] if run.tier == "quick" else \
+        [(-5e-7, 2e-7), (-1e-6, 5e-7), (-3e-7, 1e-6), (-2e-6, 1e-6)]
+    for f in files:
+        for rx in ranges:
+            for wcp in (False, 5e-7):
+                key = f"recorded-relative:{f.name}:{rx}:{wcp}"
+                try:
+                    with warnings.catch_warnings():
+                        warnings.simplefilter("ignore")
+                        idnt = IndentationGroup(f)[0]
+                        idnt.apply_preprocessing(["compute_tip_position",
+                                                  "correct_force_offset",
+                                                  "correct_tip_offset"])
+                        idnt.fit_model(model_key="hertz_para",
+                                       range_type="relative cp",
+                                       range_x=list(rx), weight_cp=wcp,
+                                       segment=0, x_axis="tip position",
+                                       y_axis="force")
+                except BaseException as e:
+                    run.case({"recorded-relative": f.name, "raised":
+                              type(e).__name__}, kind="recorded-relative-raised")
+                    continue
+                fp = idnt.fit_properties
+                run.case({"recorded-relative": f.name, "range_x": list(rx),
+                          "weight_cp": wcp}, nontrivial=True,
+                         kind="recorded-relative-" + (
+                             "ok" if fp.get("success") else "unsuccessful"))
+                if not fp.get("success"):
+                    continue
+                used = np.asarray(idnt["fit range"], dtype=bool)
+                res = np.asarray(idnt["fit residuals"], float)
+                xu = np.asarray(idnt["tip position"], float)[used]
+                why = None
+                if xu.size == 0:
+                    why = "success True but no point is flagged as fitted"
+                else:
+                    chi = float(np.sum(res[used] ** 2))
+                    if not math.isclose(chi, float(fp["chi_sqr"]),
+                                        rel_tol=1e-9, abs_tol=1e-240):
+                        why = (f"chi_sqr {fp['chi_sqr']} is not the sum of "
+                               f"squared residuals over the flagged points "
+                               f"{chi}")
+                    elif not (math.isclose(float(xu.min()), fp["xmin"],
+                                           rel_tol=1e-12, abs_tol=0)
+                              and math.isclose(float(xu.max()), fp["xmax"],
+                                               rel_tol=1e-12, abs_tol=0)):
+                        why = (f"xmin/xmax [{fp['xmin']}, {fp['xmax']}] are "
+                               f"not the extreme abscissae [{xu.min()}, "
+                               f"{xu.max()}] of the {xu.size} flagged points")
+                if why:
+                    run.failing(SITE, key, f"{f.name} relative {list(rx)} "
+                                f"weight {wcp}: {why}",
+                                payload={"kind": "rerun"},
+                                theorem="C04 (chi-square) / C05_xmin_xmax")
+
+
 OUTCOME_HEAD = """From Coq Require Import List Bool Arith.
 From NV Require Import Model.FitCore Model.FitOutcome.
 Import ListNotations.
@@ -589,6 +658,7 @@ def check(run):
     weights_history_cases(run)
     multipass_expr_cases(run)
     outcome_model_cases(run)
+    recorded_relative_cases(run)
     for kf in run.known:
         if kf.get("status") == "fixed":
             m_ = kf.get("match", {})
